@@ -229,13 +229,13 @@ func init() {
 		sp(float32(math.NaN()), "nan"), sp(float32(math.Inf(1)), "inf"), sp(float32(math.Inf(-1)), "neginf"))
 	basic("float64", true, b(float64(0), "zero"), b(float64(1), "one"), b(float64(-1), "neg"), h(float64(0.1), "frac"), b(float64(1<<53), "big"), b(float64(1e21), "exp"), b(math.MaxFloat64, "max"), b(math.SmallestNonzeroFloat64, "tiny"),
 		sp(math.NaN(), "nan"), sp(math.Inf(1), "inf"), sp(math.Inf(-1), "neginf"))
-	basic("string", true, b("", "empty"), b("a", "ascii"), b("é", "nonascii"), b("\"\\/", "escape"), b(" ", "linesep"), b("<&>\x00\n", "ctrl-html"), b("😀", "astral"), h("é\"\\ <😀", "mixed"))
+	basic("string", true, b("", "empty"), b("a", "ascii"), b("é", "nonascii"), b("\"\\/", "escape"), b("\u2028", "linesep"), b("<&>\x00\n", "ctrl-html"), b("😀", "astral"), h("é\"\\\u2028<😀", "mixed"))
 
 	named := func(name, under string, thor bool, vals ...bval) {
 		addLeaf(&leafDef{name: name, kind: "named", under: under, t: reflect.TypeOf(vals[0].v), vals: vals, inThor: thor})
 	}
 	named("NInt", "int64", true, b(NInt(0), "zero"), b(NInt(1), "one"), b(NInt(math.MaxInt64), "max"), h(NInt(big), "big"))
-	named("NStr", "string", true, b(NStr(""), "empty"), b(NStr("n"), "ascii"), h(NStr("é\" "), "mixed"))
+	named("NStr", "string", true, b(NStr(""), "empty"), b(NStr("n"), "ascii"), h(NStr("é\"\u2028"), "mixed"))
 	named("NFloat", "float64", false, b(NFloat(0), "zero"), h(NFloat(0.1), "frac"), b(NFloat(1e21), "exp"))
 	named("NBool", "bool", false, b(NBool(false), "zero"), h(NBool(true), "one"))
 
